@@ -88,5 +88,5 @@ Qed.
 (* facts extracted from generate_X_grid / _flatten_mesh = what Model/Predict.v implements *)
 Definition model_grid_facts : grid_facts :=
   {| grid_lo_tensor := 0; grid_hi_tensor := 1; grid_lo_simple := 0; grid_hi_simple := 1;
-     grid_ij := true; grid_by_value := 1; flatten_mesh_sets_by := false |}.
+     grid_ij := true; grid_by_value := 1; flatten_by_value := 1 |}.
 Lemma grid_facts_ok : Gen_grid_facts = model_grid_facts. Proof. reflexivity. Qed.
